@@ -404,9 +404,13 @@ class World:
 
     def step(self, sim: SimulationState, events: Sequence[tuple]):
         """one real simulation step; returns (post_state, reports)"""
-        env = self.env
-        rep: CapturingReporter = env.reporter  # type: ignore
+        rep: CapturingReporter = self.env.reporter  # type: ignore
         rep.take()
+        post = self._advance(sim, events)
+        return post, rep.take()
+
+    def _advance(self, sim: SimulationState, events: Sequence[tuple]) -> SimulationState:
+        env = self.env
         sim = sim._replace(applied_instructions=immutables.Map())
         now = int(sim.sim_time)
         prices = [self.price_rows[e[1]] for e in events if e[0] == "P"]
@@ -424,7 +428,7 @@ class World:
         sim, _ = CancelRequests().update(sim, env)
         instructions = tuple(mk_instruction(e) for e in events if e[0] == "I")
         sim, _ = StepSimulation.from_tuple(self.generators(instructions)).update(sim, env)
-        return sim, rep.take()
+        return sim
 
     # -- replay -----------------------------------------------------------------------------------
     def run(self, history: Sequence):
